@@ -7,6 +7,7 @@
 -/
 import AuthProofs.Ladder
 import AuthProofs.Splitter
+import AuthProofs.CodeEquiv
 import AuthModel.Generated.Facts
 namespace AuthProps.C15
 open AuthModel AuthModel.Oidc
@@ -41,6 +42,16 @@ theorem no_unexpected_index_or_slice :
 
 theorem no_explicit_panics : Generated.explicitPanics = [] := by decide
 
+/-- On the code AS TRANSLATED FROM THE GO SOURCE on this run (every slice expression, index expression and field
+    selection through a pointer is a partial operation of the translation): the request-dependent pure functions of
+    the Check path return a value - they do not panic - for EVERY input, including nil messages at every level of the
+    request, nil rules, nil criteria and arbitrary bytes. -/
+theorem code_trigger_path_never_panics (env : Go.Env) (rules : List Pb.TriggerRule) (m : Pb.Match) (req : Pb.CheckRequest)
+    (s : Str) :
+    (∃ r, Code.GetPathQueryFragment env s = .ok r) ∧ (∃ b, Code.mustTriggerCheck env rules req = .ok b) ∧
+    (∃ b, Code.matches_ env m req = .ok b) :=
+  ⟨⟨_, code_pqf env s⟩, ⟨_, code_mustTriggerCheck env rules req⟩, ⟨_, code_matches env m req⟩⟩
+
 end AuthProps.C15
 
 #print axioms AuthProps.C15.verdict_wellformed
@@ -49,3 +60,4 @@ end AuthProps.C15
 #print axioms AuthProps.C15.no_unexpected_type_assertions
 #print axioms AuthProps.C15.no_unexpected_index_or_slice
 #print axioms AuthProps.C15.no_explicit_panics
+#print axioms AuthProps.C15.code_trigger_path_never_panics
